@@ -815,6 +815,9 @@ func (st *Runtime) evalNumericComparativeExpression(node *NumericComparativeExpr
 	left, right := st.evalPrimaryExpressionGroup(node.Left), st.evalPrimaryExpressionGroup(node.Right)
 	isTrue := false
 	kind := left.Kind()
+	if err := operandError(kind, right); err != nil {
+		node.Right.error(err)
+	}
 
 	// if the left value is not a float and the right is, we need to promote the left value to a float before the calculation
 	// this is necessary for expressions like 4*1.23
@@ -994,9 +997,35 @@ func toFloat(v reflect.Value) float64 {
 	panic(fmt.Errorf("type: %q can't be converted to float64", v.Type()))
 }
 
+// operandError reports why v cannot be the right operand of an arithmetic or comparison
+// operator whose left operand is a number of the given kind (nil if it can).
+func operandError(kind reflect.Kind, v reflect.Value) (err error) {
+	defer func() {
+		if r := recover(); r != nil {
+			e, ok := r.(error)
+			if !ok {
+				panic(r)
+			}
+			err = e
+		}
+	}()
+	switch {
+	case isInt(kind):
+		toInt(v)
+	case isUint(kind):
+		toUint(v)
+	case isFloat(kind):
+		toFloat(v)
+	}
+	return nil
+}
+
 func (st *Runtime) evalMultiplicativeExpression(node *MultiplicativeExprNode) reflect.Value {
 	left, right := st.evalPrimaryExpressionGroup(node.Left), st.evalPrimaryExpressionGroup(node.Right)
 	kind := left.Kind()
+	if err := operandError(kind, right); err != nil {
+		node.Right.error(err)
+	}
 	// if the left value is not a float and the right is, we need to promote the left value to a float before the calculation
 	// this is necessary for expressions like 4*1.23
 	needFloatPromotion := !isFloat(kind) && isFloat(right.Kind())
@@ -1107,6 +1136,9 @@ func (st *Runtime) evalAdditiveExpression(node *AdditiveExprNode) reflect.Value 
 		node.errorf("right side of additive expression is invalid value")
 	}
 	kind := left.Kind()
+	if err := operandError(kind, right); err != nil {
+		node.Right.error(err)
+	}
 	// if the left value is not a float and the right is, we need to promote the left value to a float before the calculation
 	// this is necessary for expressions like 4+1.23
 	needFloatPromotion := !isFloat(kind) && kind != reflect.String && isFloat(right.Kind())
